@@ -1,8 +1,11 @@
 CONSTANTS p = 19
- nq = 1
- qnr2 = 1
- big = FALSE
- phases = {"quad", "sextic"}
+ usq = 18
+ r = 13
+ tr = 7
+ xabs = 1
+ xneg = TRUE
+ fam = "BN"
+ n2 = 325
 SPECIFICATION Spec
 INVARIANT Check
 CHECK_DEADLOCK FALSE
